@@ -117,3 +117,15 @@ PROPERTY_ASSUMPTIONS["C08"] = [
 ]
 M("C08", "c08_total_work", ["saito_core::core::consensus::transaction::Transaction::generate_total_work"],
   "routing paths of 0..=5 hops (thorough: 0..=8), each hop's from/to keys 33 symbolic bytes, fee any u64, creator key symbolic; one solver query per returning path and clause")
+
+# ============================================================================== C01
+PROPERTY_ASSUMPTIONS["C01"] = [
+    "engine M: MIR of /repo's current source; callees outside the encoded body are uninterpreted (fresh result constrained only by the path), so a verdict speaks about control and data dependence inside the encoded bodies",
+    "Slip::get_utxoset_key is modelled as its documented 59-byte layout (public_key, block_id, tx_ordinal, slip_index, amount, slip_type, big endian)",
+    "std::collections::HashMap / ahash maps are modelled as finite maps with an arbitrary bounded pre-state (one symbolic recorded key) - inductive step over the block's transaction list",
+    "history facts (created earlier on the same chain, retention window) are represented only as membership in the utxoset handed to validation",
+]
+CLO = "saito_core::core::consensus::block::Block::validate::{closure#0}::{closure#0} (the per-transaction closure)"
+M("C01", "c01_block_tx_gate", [CLO], "transactions with 0..=2 inputs, every transaction type, every slip type/amount; Transaction::validate's verdict is a free boolean")
+M("C01", "c01_block_double_spend", [CLO, "Slip::get_utxoset_key (layout model)"], "transactions with 1..=3 inputs (amounts, types, locations, owners symbolic), one arbitrary key already recorded for the block; three clauses per returning path")
+M("C01", "c01_pool_gate", ["saito_core::core::consensus::mempool::Mempool::add_transaction_if_validates (async body, every poll Ready)"], "all paths of the coroutine; Transaction::validate's verdict free")
